@@ -67,7 +67,8 @@ type e2eScenario struct {
 	RetryMax    int
 	AcksAll     bool
 	Start       map[string]int64
-	Steer       string // "chaser": the steered replay of the marker-accepted witness (see chaserWitness)
+	LAT         time.Time // non-zero: the topics are LogAppendTime; the brokers stamp entries with it and answer it in every NoError block
+	Steer       string    // "chaser": the steered replay of the marker-accepted witness (see chaserWitness)
 }
 
 type reqPart struct {
@@ -240,6 +241,13 @@ func (c *ecluster) produce(r *sarama.ProduceRequest) interface{} {
 			}
 			base := c.logEnd[key]
 			lg := appendDecoded(base, p.Decoded)
+			if !c.s.LAT.IsZero() {
+				for i := range lg {
+					if lg[i].HasTS {
+						lg[i].TS = c.s.LAT
+					}
+				}
+			}
 			c.logs[key] = append(c.logs[key], lg...)
 			c.logEnd[key] = base + int64(len(lg))
 			rp.Appended = true
@@ -260,7 +268,11 @@ func (c *ecluster) produce(r *sarama.ProduceRequest) interface{} {
 			if resp.Blocks[p.Topic] == nil {
 				resp.Blocks[p.Topic] = map[int32]*sarama.ProduceResponseBlock{}
 			}
-			resp.Blocks[p.Topic][p.Partition] = &sarama.ProduceResponseBlock{Err: e, Offset: off}
+			blk := &sarama.ProduceResponseBlock{Err: e, Offset: off}
+			if e == sarama.ErrNoError {
+				blk.Timestamp = c.s.LAT
+			}
+			resp.Blocks[p.Topic][p.Partition] = blk
 		}
 		if verdict != sarama.ErrNoError {
 			rp.Answer = verdict.Error()
@@ -348,6 +360,9 @@ func genE2E(r *rand.Rand, i int) *e2eScenario {
 		s.AcksAll = true
 	} else {
 		s.AcksAll = r.Intn(2) == 0
+	}
+	if s.Cfg.Gen >= 1 && r.Intn(3) == 0 {
+		s.LAT = time.Unix(1700000000+int64(r.Intn(1000)), int64(r.Intn(1000))*1000000)
 	}
 	s.Sync = r.Intn(3) == 0
 	s.SyncBatch = s.Sync && r.Intn(2) == 0
@@ -485,6 +500,8 @@ func e2eCorpus() []*e2eScenario {
 				Script: []fault{{Kind: fRetriableAppended, Err: 7, Only: -1}}}
 			if idem {
 				s.Cfg.Idem, s.Cfg.Pid, s.Cfg.Epoch = true, 4711, 0
+			} else if gen >= 1 {
+				s.LAT = time.Unix(1700000000, 123000000) // LogAppendTime topic: non-zero bases + a log-append time in the blocks
 			}
 			for j := 0; j < 4; j++ {
 				s.Msgs = append(s.Msgs, &genMsg{ID: int64(j + 1), Topic: 0, Key: []byte(fmt.Sprintf("k%d", j)), Val: []byte(fmt.Sprintf("%d:v", j+1)),
@@ -507,6 +524,7 @@ type e2eOutcome struct {
 	Offset    int64
 	RetPart   int32 // sync: returned values
 	RetOff    int64
+	TS        time.Time // msg.Timestamp as reported
 	Err       string
 }
 
@@ -682,7 +700,7 @@ func runE2E(s *e2eScenario) (string, cf.Sidecar) {
 						}
 					}
 					for i, pm := range pms {
-						o := &e2eOutcome{ID: s.Msgs[i].ID, Partition: pm.Partition, Offset: pm.Offset, RetPart: pm.Partition, RetOff: pm.Offset}
+						o := &e2eOutcome{ID: s.Msgs[i].ID, Partition: pm.Partition, Offset: pm.Offset, RetPart: pm.Partition, RetOff: pm.Offset, TS: pm.Timestamp}
 						if e, bad := failed[pm]; bad {
 							o.Err = e.Error()
 						} else {
@@ -693,7 +711,7 @@ func runE2E(s *e2eScenario) (string, cf.Sidecar) {
 				} else {
 					for i, pm := range pms {
 						part, off, err := sp.SendMessage(pm)
-						o := &e2eOutcome{ID: s.Msgs[i].ID, Partition: pm.Partition, Offset: pm.Offset, RetPart: part, RetOff: off}
+						o := &e2eOutcome{ID: s.Msgs[i].ID, Partition: pm.Partition, Offset: pm.Offset, RetPart: part, RetOff: off, TS: pm.Timestamp}
 						if err != nil {
 							o.Err = err.Error()
 						} else {
@@ -737,7 +755,7 @@ func runE2E(s *e2eScenario) (string, cf.Sidecar) {
 						markerEvents = append(markerEvents, fmt.Sprintf("success event for a message the application never submitted (topic %q partition %d offset %d)", m.Topic, m.Partition, m.Offset))
 						continue
 					}
-					outcomes[id] = &e2eOutcome{ID: id, Success: true, Partition: m.Partition, Offset: m.Offset, RetPart: m.Partition, RetOff: m.Offset}
+					outcomes[id] = &e2eOutcome{ID: id, Success: true, Partition: m.Partition, Offset: m.Offset, RetPart: m.Partition, RetOff: m.Offset, TS: m.Timestamp}
 				case e := <-p.Errors():
 					id, ok := e.Msg.Metadata.(int64)
 					if !ok {
@@ -763,7 +781,7 @@ func runE2E(s *e2eScenario) (string, cf.Sidecar) {
 	defer hmu.Unlock()
 
 	desc := map[string]interface{}{"cfg": s.Cfg.String(), "sync": s.Sync, "syncbatch": s.SyncBatch, "brokers": s.Brokers, "parts": s.Parts,
-		"flush": s.FlushMsgs, "retrymax": s.RetryMax, "requests": c.nreq}
+		"flush": s.FlushMsgs, "retrymax": s.RetryMax, "requests": c.nreq, "logappend": !s.LAT.IsZero()}
 	var sd []string
 	for _, f := range s.Script {
 		sd = append(sd, fmt.Sprintf("%s/%d/only=%d", faultNames[f.Kind], f.Err, f.Only))
@@ -789,7 +807,7 @@ func runE2E(s *e2eScenario) (string, cf.Sidecar) {
 		// message usually ends that way: the monitor failure is the verdict of such a scenario)
 		desc["skipped"] = hang
 		desc["marker_events"] = markerEvents
-		return cf.App("mkECase", s.Cfg.coq(), "[]", "[]", "[]", "[]", "[]"), cf.Sidecar{Case: desc, Kind: "e2e-skipped", Nontrivial: false, Monitor: hookFail}
+		return cf.App("mkECase", s.Cfg.coq(), "[]", "[]", "[]", "[]", zeroTime, "[]"), cf.Sidecar{Case: desc, Kind: "e2e-skipped", Nontrivial: false, Monitor: hookFail}
 	}
 
 	mon := hookFail
@@ -869,13 +887,20 @@ func runE2E(s *e2eScenario) (string, cf.Sidecar) {
 			fail("e2e:offset", fmt.Sprintf("message %d reported at %s offset %d: the log has nothing there", id, key, o.Offset))
 			continue
 		}
-		if d := compareEntry(s.Cfg, m, e, lo, hi); d != "" {
+		wantTS := m.TS
+		if !s.LAT.IsZero() && s.Cfg.Gen >= 1 {
+			wantTS = s.LAT
+		}
+		if !o.TS.Equal(wantTS) || o.TS.IsZero() != wantTS.IsZero() {
+			fail("e2e:reported-timestamp", fmt.Sprintf("message %d reported with timestamp %v, expected %v", id, o.TS, wantTS))
+		}
+		if d := compareEntry(s.Cfg, m, e, lo, hi, s.LAT); d != "" {
 			fail("e2e:"+d, fmt.Sprintf("message %d reported at %s offset %d: the record there differs in its %s", id, key, o.Offset, d))
 		}
 		if m.TS.IsZero() && e.HasTS {
 			nowOf[id] = e.TS.UnixNano()
 		}
-		succTerms = append(succTerms, fmt.Sprintf("(%d, %s, %s)", id, cf.Z(int64(o.Partition)), cf.Z(o.Offset)))
+		succTerms = append(succTerms, fmt.Sprintf("(%d, %s, %s, %s)", id, cf.Z(int64(o.Partition)), cf.Z(o.Offset), coqTime(o.TS)))
 	}
 	// nothing in a log that was not submitted for that partition
 	for k, lg := range c.logs {
@@ -889,7 +914,7 @@ func runE2E(s *e2eScenario) (string, cf.Sidecar) {
 				}
 				_ = o
 				_ = i
-				if compareEntry(s.Cfg, m, e, lo, hi) == "" {
+				if compareEntry(s.Cfg, m, e, lo, hi, s.LAT) == "" {
 					found = true
 					break
 				}
@@ -929,7 +954,7 @@ func runE2E(s *e2eScenario) (string, cf.Sidecar) {
 	for _, rp := range c.reqs {
 		reqTerms = append(reqTerms, cf.App("mkEReq", coqTpk(topicIndex(rp.Topic), rp.Partition), cf.Z(rp.Base), cf.Bool(rp.Appended), coqRecords(rp.Recs)))
 	}
-	term := cf.App("mkECase", s.Cfg.coq(), cf.List(msgTerms), cf.List(allTerms), cf.List(wrTerms), cf.List(reqTerms), cf.List(succTerms))
+	term := cf.App("mkECase", s.Cfg.coq(), cf.List(msgTerms), cf.List(allTerms), cf.List(wrTerms), cf.List(reqTerms), coqTime(s.LAT), cf.List(succTerms))
 	kind := "e2e-async"
 	if s.Sync {
 		kind = "e2e-sync"
